@@ -28,4 +28,43 @@ example : decodeInstrs (encodeInstrs [.op2 0x41 5, .op3 0x81 300, .op1 0x05, .op
 /-- the encoded length is the sum of the instruction sizes (what every jump offset of the scheme is computed from) -/
 theorem encoded_length (is : List Instr) : (encodeInstrs is).length = codeSize is := encodeInstrs_length is
 
+/-! ### precedence facts of the reference reading (what makes a dropped parenthesis visible) -/
+
+/-- read one expression from text (no variables declared: bare identifiers are locals) -/
+def readExprText (s : String) : Option (List Char) :=
+  (lex s.toList).bind fun ts => (pExpr {} (8 * ts.length + 8) ts).bind fun (e, r) => if r = [] then some e.toSX.render else none
+
+def sxOf (e : Expr) : Option (List Char) := some e.toSX.render
+
+private def va : Expr := .var .loc "a".toList
+private def vb : Expr := .var .loc "b".toList
+private def vc : Expr := .var .loc "c".toList
+
+/-- binary operators are left-associative: `a - b - c` is `(a - b) - c` … -/
+theorem sub_left_assoc : readExprText "a - b - c" = sxOf (.bin .sub (.bin .sub va vb) vc) := by decide +kernel
+
+/-- … so dropping the parentheses of `a - (b - c)` changes what is read -/
+theorem sub_paren_matters : readExprText "a - (b - c)" = sxOf (.bin .sub va (.bin .sub vb vc)) ∧
+    readExprText "a - (b - c)" ≠ readExprText "a - b - c" := by decide +kernel
+
+/-- level 4 (`*`) binds tighter than level 3 (`+`), which binds tighter than level 2 (`=`), which binds tighter than level 1 (`&`) -/
+theorem levels : readExprText "a & b = c + a * b"
+    = sxOf (.bin .concat va (.bin .eq vb (.bin .add vc (.bin .mul va vb)))) := by decide +kernel
+
+/-- `and` / `or` sit on the multiplicative level: `a + b and c` is `a + (b and c)` -/
+theorem and_binds_like_mul : readExprText "a + b and c" = sxOf (.bin .add va (.bin .and vb vc)) := by decide +kernel
+
+/-- unary minus binds tighter than any binary operator -/
+theorem neg_binds_tightest : readExprText "- a - b" = sxOf (.bin .sub (.un .neg va) vb) := by decide +kernel
+
+/-- `--` starts a comment (F21): `a -- b` reads as just `a` -/
+theorem double_minus_is_comment : readExprText "a -- b" = sxOf va := by decide +kernel
+
+/-- the operand of `sprite … intersects` is a level-5 expression: `sprite a + 1 intersects b` is not Lingo -/
+theorem sprite_operand_is_tight : readExprText "sprite a + 1 intersects b" = none ∧
+    readExprText "sprite (a + 1) intersects b" = sxOf (.bin .intersects (.bin .add va (.int 1)) vb) := by decide +kernel
+
+/-- `starts` is the operator; `start` (what the decompiler prints, F40) is not -/
+theorem starts_not_start : readExprText "a starts b" = sxOf (.bin .starts va vb) ∧ readExprText "a start b" = none := by decide +kernel
+
 end DrxProps.C02
